@@ -188,6 +188,9 @@ Step(a) ==
 \* internal steps (no point)
 Internal(a) == NextOp(a)
 \* expected hook argument at the current point (-1 = not compared)
+\* labels at which an actor performs internal steps (no verification point): under the baton these
+\* complete before anybody else moves
+InternalPcs == {"next"}
 Obs(a) == IF pc[a] = "sb.park.ret" THEN (IF res[a] = "Ok" THEN 0 ELSE 2) ELSE -1
 
 AllOver == \A a \in Actors : pc[a] \in {"done", "dead"}
